@@ -96,6 +96,12 @@ Definition all_exact (l : list pv) : bool := forallb is_exact l.
 Definition model_obs (c : case) : obs :=
   match c with
   | Case (OpA o) [x; y] => obs_of_res (arith o (pv_of x) (pv_of y))
+  | Case (OpA o) [x; y; z] =>
+      (* the variadic arity [x y & args] of + - * / : a left fold (modelled by hand) *)
+      match arith o (pv_of x) (pv_of y) with
+      | Val v => obs_of_res (arith o v (pv_of z))
+      | Exc e => OExc e
+      end
   | Case (OpD o) [x; y] =>
       let a := pv_of x in let b := pv_of y in
       if all_exact [a; b] then obs_of_res (divop o a b)
@@ -140,6 +146,14 @@ Definition spec_obs (c : case) : obs :=
       let a := pv_of x in let b := pv_of y in
       if all_exact [a; b] then obs_of_res (ref_arith o (qv x) (qv y))
       else OApx (join (kindp a) (kindp b))
+  | Case (OpA o) [x; y; z] =>
+      let a := pv_of x in let b := pv_of y in let c := pv_of z in
+      if all_exact [a; b; c] then
+        match ref_arith o (qv x) (qv y) with
+        | Val v => obs_of_res (ref_arith o (den v) (qv z))
+        | Exc e => OExc e
+        end
+      else OApx (join (join (kindp a) (kindp b)) (kindp c))
   | Case (OpD o) [x; y] =>
       let a := pv_of x in let b := pv_of y in
       if all_exact [a; b] then obs_of_res (ref_divop o (qv x) (qv y))
